@@ -22,7 +22,7 @@ EXPLANATION = (
 )
 RULE_TEXT = (
     "C12.a=C02.c; C12.b per clause index: kind(candidates)==kind(mutations)==kind(counts)==clause kind; C12.c DML target "
-    "== MERGE target; C12.f each generated statement names exactly its own clause's columns/values; C12.g the helper's select list carries every source column a clause reads, written with or without the source's name; C12.d helper TEMPORARY and dropped before execute returns; C12.e BEGIN..COMMIT/ROLLBACK bracket."
+    "== MERGE target; C12.f each generated statement names exactly its own clause's columns/values; C12.g the helper's select list carries every source column a clause reads, written with or without the source's name; C12.h render dialect == parse dialect for every assembled statement; C12.d helper TEMPORARY and dropped before execute returns; C12.e BEGIN..COMMIT/ROLLBACK bracket."
 )
 TRUSTED = ["CPython ast", "DuckDB temp tables are per connection", "statement descriptors mirror the pinned parser"]
 
@@ -150,6 +150,27 @@ def rule_ladders(ctx):
                 ctx.violation("C12.c", "transforms_merge", "_mutations", f"{kind} targets {first} reads {others}", m.path,
                               f"the {kind} generated for clause {idx} modifies `{first}` and reads {others}: MERGE must change only its target "
                               f"and read the source through the candidates table")
+    # C12.h a statement assembled from rendered fragments is parsed in the dialect the fragments were rendered in
+    for fname in ("_create_merge_candidates", "_mutations", "_counts"):
+        for p in _run(prog, fname):
+            for e in [e for e in p.effects if e[0] == "parse"]:
+                read = e[3].get("read") if isinstance(e[3], dict) else None
+                read = read.v if isinstance(read, Const) else None
+                src = e[2]
+                holes = [h for h in (src.parts if isinstance(src, Str) else []) if isinstance(h, Sym) and h.origin and h.origin[0] == "sql"]
+                dialects = set()
+                for h in holes:
+                    d = h.origin[2] if len(h.origin) > 2 else None
+                    dialects.add(d.v if isinstance(d, Const) else None)
+                bad = [d for d in dialects if d != read]
+                ctx.ob("C12.h", f"{fname}: fragments rendered in {sorted(map(str, dialects))} are parsed with read={read}", not bad,
+                       m.loc(e[4]) if e[4] is not None else m.path)
+                if bad:
+                    ctx.violation("C12.h", "transforms_merge", fname, f"rendered as {sorted(map(str, dialects))}, parsed as {read}", m.loc(e[4]) if e[4] is not None else m.path,
+                                  f"{fname} renders the fragments of the statement in dialect {sorted(map(str, dialects))} (None = sqlglot's default) but parses "
+                                  f"the assembled text with read={read!r}: literal syntax differs between dialects (a backslash in a string literal "
+                                  f"becomes an escape), so the values of UPDATE SET / INSERT VALUES change")
+            break
     # counts
     cnt = {}
     for p in _run(prog, "_counts"):
